@@ -117,7 +117,14 @@ func runWriterHistoryInner(cs *drv.Case, ops []wOp, o writerOpts) bool {
 		initCopy = append([]byte(nil), target...)
 		w = bufiox.NewBytesWriter(&target)
 	} else {
-		w = bufiox.NewDefaultWriter(sink)
+		if cs.R.Intn(5) == 0 {
+			// the same sink with the method set of a net.Conn (and WriteString): what else the io.Writer can do
+			// must not change what is delivered through it
+			w = bufiox.NewDefaultWriter(doubles.ConnSink{Sink: sink})
+			cs.C.Obs("histories over a net.Conn-shaped sink", 1)
+		} else {
+			w = bufiox.NewDefaultWriter(sink)
+		}
 	}
 	ct := &coTenant{r: cs.R}
 	defer ct.done()
@@ -379,6 +386,15 @@ func runWriterHistoryInner(cs *drv.Case, ops []wOp, o writerOpts) bool {
 				flushedOnce = true
 				if len(target) > 0 {
 					pubs = append(pubs, published{target, append([]byte(nil), target...)})
+				}
+				if len(want) > 0 && cs.R.Intn(3) == 0 { // (only after a Flush that really published something)
+					// the published slice is the caller's: it appends to it (into its spare capacity, if any)
+					// before using the writer again. Later regions of the writer must not come from that memory,
+					// and later flushes append behind what the caller added.
+					marker := []byte{0xC1, 0xC2, 0xC3, 0xC4, 0xC5, 0xC6}
+					target = append(target, marker...)
+					everything = append(everything, marker...)
+					cs.C.Obs("caller appends to the published target between flushes", 1)
 				}
 			} else {
 				sinkFails := o.failAt > 0 && sink.Calls >= o.failAt
